@@ -1,0 +1,14 @@
+//go:build verif
+
+package piece
+
+// VerifPieceData returns a copy of the bytes currently held for a piece
+// (nil when the piece holds no data), whatever its state.
+func (ps *Pieces) VerifPieceData(index uint32) []byte {
+	ps.mu.RLock()
+	defer ps.mu.RUnlock()
+	if ps.pieces[index].data == nil {
+		return nil
+	}
+	return append([]byte(nil), ps.pieces[index].data...)
+}
